@@ -314,7 +314,7 @@ theorem appendRow_sim (hdb : c1.drawBorders = c2.drawBorders) (s : SubR) (vert :
 def CellsOk (ok : Nat → Prop) (ws : List Nat) (vert : Bool) : Prop :=
   ∀ colno span, cellOob ws vert colno span = false → cellInner ws vert colno span ≠ 0 → ok (cellOuter vert (cellInner ws vert colno span) span)
 
-theorem sum_take_le (l : List Nat) (n : Nat) : (l.take n).sum ≤ l.sum := by
+theorem cc_sum_take_le (l : List Nat) (n : Nat) : (l.take n).sum ≤ l.sum := by
   have h2 : (l.take n ++ l.drop n).sum = (l.take n).sum + (l.drop n).sum := List.sum_append
   rw [List.take_append_drop] at h2; omega
 
@@ -333,7 +333,7 @@ theorem cellsOk_of_alloc (h : CfgSim ok c1 c2) (cfg : Cfg) (w : Nat) (cols : Lis
     rw [this]; exact hv rfl _ (List.getElem_mem _)
   | false =>
     simp only [Bool.false_eq_true, if_false, decide_eq_false_iff_not, Nat.not_lt] at hoob hnz ⊢
-    have h1 := sum_take_le (ws.drop colno) span
+    have h1 := cc_sum_take_le (ws.drop colno) span
     have h2 := sum_drop_le_sum ws colno
     have h3 := hn rfl
     omega
